@@ -78,7 +78,7 @@ def build_probes(ctx, config):
     ser1 = C("pubkey_serialize", pk1, 33, 258).b(2); ser1u = C("pubkey_serialize", pk1, 65, 2).b(2)
     add("pubkey_create", sk1); add("pubkey_parse", ser1); add("pubkey_parse", ser1u, label="pubkey_parse_uncompressed"); add("pubkey_serialize", pk1, 33, 258); add("pubkey_serialize", pk1, 65, 2, label="pubkey_serialize_uncompressed")
     add("seckey_verify", sk1); add("seckey_negate", sk1); add("seckey_tweak_add", sk1, tw); add("seckey_tweak_mul", sk1, tw); add("pubkey_negate", pk1); add("pubkey_tweak_add", pk1, tw); add("pubkey_tweak_mul", pk1, tw)
-    add("pubkey_cmp", pk1, pk2); add("pubkey_combine", pk1 + pk2 + pk3, 3); add("pubkey_sort", pk1 + pk2 + pk3, 3); add("tagged_sha256", b"tag", msg)
+    add("pubkey_cmp", pk1, pk2); add("pubkey_combine", pk1 + pk2 + pk3, 3); add("pubkey_sort", pk1 + pk2 + pk3, 3); add("tagged_sha256", b"tag", msg); add("tagged_sha256", b"tag", b"", label="tagged_sha256_empty_msg")
     sig = C("ecdsa_sign", msg, sk1, 0, None).b(1); c64 = C("sig_serialize_compact", sig).b(1); der = C("sig_serialize_der", sig, 80); derb = der.b(2)[:der.i(1)]
     add("ecdsa_sign", msg, sk1, 0, None); add("ecdsa_sign", msg, sk1, 1, aux, label="ecdsa_sign_rfc6979_extra"); add("ecdsa_verify", sig, msg, pk1); add("sig_parse_compact", c64); add("sig_parse_der", derb)
     add("sig_serialize_compact", sig); add("sig_serialize_der", sig, 80); add("sig_normalize", sig, 1); add("nonce_rfc6979", msg, sk1, None, aux, 0)
@@ -89,7 +89,7 @@ def build_probes(ctx, config):
     add("xonly_parse", x32); add("xonly_serialize", xo1); add("xonly_cmp", xo1, xo1); add("xonly_from_pubkey", pk1, 1); add("xonly_tweak_add", xo1, tw); add("xonly_tweak_add_check", xts[1:], xts[0] & 1, xo1, tw)
     add("keypair_create", sk1); add("keypair_sec", kp1); add("keypair_pub", kp1); add("keypair_xonly_pub", kp1); add("keypair_xonly_tweak_add", kp1, tw)
     ss = C("schnorr_sign32", msg, kp1, aux).b(1)
-    add("schnorr_sign32", msg, kp1, aux); add("schnorr_sign32", msg, kp1, None, label="schnorr_sign32_noaux"); add("schnorr_sign_custom", b"variable length message", kp1, 1, aux); add("schnorr_verify", ss, msg, xo1)
+    add("schnorr_sign32", msg, kp1, aux); add("schnorr_sign32", msg, kp1, None, label="schnorr_sign32_noaux"); add("schnorr_sign_custom", b"variable length message", kp1, 1, aux); add("schnorr_sign_custom", b"", kp1, 1, aux, label="schnorr_sign_custom_empty_msg"); add("schnorr_verify", ss, msg, xo1)
     add("ecdh", pk2, sk1, 0); add("ecdh", pk2, sk1, 3, label="ecdh_custom_hash")
     e1 = C("ellswift_create", sk1, aux).b(1); e2 = C("ellswift_create", sk2, None).b(1)
     add("ellswift_create", sk1, aux); add("ellswift_encode", pk1, rnd); add("ellswift_decode", e1); add("ellswift_xdh", e1, e2, sk1, 0, 0, None); add("ellswift_xdh", e1, e2, sk2, 1, 1, sha(b"p") + sha(b"q"), label="ellswift_xdh_prefix")
@@ -222,7 +222,10 @@ def wl_histories(ctx, config, probes, gold):
         for s in list(live): ctx.call("ctx_destroy", s, config=config)
     ctx.count("distinct_context_states_probed", len(states)); ctx.count("histories", nh)
     r = ctx.call("ctx_alt_calls", config=config)
-    if r is not None: ctx.count("replaced_sha256_compression_blocks", r.i(0))
+    if r is not None:
+        ctx.count("replaced_sha256_compression_blocks", r.i(0))
+        # secp256k1.h: the replaceable compression function "processes one or more contiguous 64-byte message blocks"
+        ctx.check(r.i(1) == 0, "replaced_compression:called_with_zero_blocks", "%d invocations with n_blocks == 0 (a correct replacement may rely on n_blocks >= 1)" % r.i(1), config)
 
 def wl_static(ctx, config, probes, gold):
     restricted, allfn = restricted_functions(ctx.repo)
